@@ -249,8 +249,10 @@ impl<T: RealNumber + Sum, D: Distance<Vec<T>, T>> DBSCAN<T, D> {
                     label[yi as usize] += 1;
                 }
             }
+            // a row with no training point within eps is noise (which_max of an all-zero vote is 0)
+            let has_neighbors = label.iter().any(|&c| c > 0);
             let class = which_max(&label);
-            if class != self.num_classes {
+            if has_neighbors && class != self.num_classes {
                 result.set(0, i, T::from(class).unwrap());
             } else {
                 result.set(0, i, -T::one());
